@@ -619,6 +619,66 @@ struct TI {
     }
 };
 
+// The eight mixed operations as functors, with SFINAE detection: an operator that overload resolution
+// rejects for the given operand types is reported as "unavailable" instead of breaking the build, so that a
+// rejected-but-modelled-as-well-formed expression is an ordinary, named finding.
+#define C17_OP(NAME, SYM) \
+    struct NAME { template <class X, class Y> static constexpr auto f(const X& x, const Y& y) -> decltype(x SYM y) { return x SYM y; } };
+C17_OP(OpEq, ==) C17_OP(OpNe, !=) C17_OP(OpLt, <) C17_OP(OpLe, <=) C17_OP(OpGt, >) C17_OP(OpGe, >=) C17_OP(OpAdd, +) C17_OP(OpSub, -)
+template <class...> struct VoidT { using type = void; };
+template <class Op, class X, class Y, class = void> struct CanOp : std::false_type {};
+template <class Op, class X, class Y>
+struct CanOp<Op, X, Y, typename VoidT<decltype(Op::f(std::declval<const X&>(), std::declval<const Y&>()))>::type> : std::true_type {};
+
+template <class X, class R0> struct Mk;
+template <class R, class P, class R0> struct Mk<std::chrono::duration<R, P>, R0> {
+    static std::chrono::duration<R, P> f(R0 a) { return std::chrono::duration<R, P>{a}; }
+};
+template <class U, class R, class R0> struct Mk<au::Quantity<U, R>, R0> {
+    static au::Quantity<U, R> f(R0 a) { return au::make_quantity<U>(a); }
+};
+inline std::string show(bool b) { return b01(b); }
+template <class U, class R> std::string show(au::Quantity<U, R> q) { return Txt<R>::str(q.in(U{})); }
+template <class R, class P> std::string show(std::chrono::duration<R, P> d) { return Txt<R>::str(d.count()); }
+
+template <class Op, class X, class Y, bool Ok = CanOp<Op, X, Y>::value>
+struct Ev {
+    static std::string go(const X& x, const Y& y, long& ub) {
+        const long u0 = g_ub; const auto r = Op::f(x, y); ub = g_ub - u0; return show(r);
+    }
+};
+template <class Op, class X, class Y>
+struct Ev<Op, X, Y, false> { static std::string go(const X&, const Y&, long& ub) { ub = 0; return "unavailable"; } };
+
+// Static facts about the mixed sum, guarded in the same way.
+template <class X, class Y, class Q1, class Q2, class R1, class R2, class ChSum, bool Ok = CanOp<OpAdd, X, Y>::value>
+struct SumFacts {
+    static std::string str() {
+        using AuSum = decltype(std::declval<const X&>() + std::declval<const Y&>());
+        using CRep = typename AuSum::Rep;
+        std::string s;
+        s += std::string(" crep_same=") + b01(std::is_same<CRep, typename ChSum::rep>::value);
+        s += std::string(" crep_is_common=") + b01(std::is_same<CRep, typename std::common_type<R1, R2>::type>::value);
+        s += " au_unit=" + ratio_to_seconds<typename AuSum::Unit>();
+        s += " k1=" + std::to_string(au::get_value<std::uint64_t>(au::unit_ratio(typename Q1::Unit{}, typename AuSum::Unit{})));
+        s += " k2=" + std::to_string(au::get_value<std::uint64_t>(au::unit_ratio(typename Q2::Unit{}, typename AuSum::Unit{})));
+        return s;
+    }
+    template <bool SubOk, class Dummy = void> struct Diff {
+        static std::string str() {
+            using AuSum = decltype(std::declval<const X&>() + std::declval<const Y&>());
+            using AuDiff = decltype(std::declval<const X&>() - std::declval<const Y&>());
+            return std::string(" diff_type_same=") + b01(std::is_same<AuDiff, AuSum>::value);
+        }
+    };
+    template <class Dummy> struct Diff<false, Dummy> { static std::string str() { return " diff_type_same=-"; } };
+};
+template <class X, class Y, class Q1, class Q2, class R1, class R2, class ChSum>
+struct SumFacts<X, Y, Q1, Q2, R1, R2, ChSum, false> {
+    static std::string str() { return " crep_same=- crep_is_common=- au_unit=- k1=- k2=-"; }
+    template <bool SubOk, class Dummy = void> struct Diff { static std::string str() { return " diff_type_same=-"; } };
+};
+
 // One ordered pair of duration types with a mixed-operation shape:
 //   Side 0: Quantity(1) op duration(2);  Side 1: duration(1) op Quantity(2);
 //   Generic: the Quantity operand uses the generic unit spelling instead of the corresponding one.
@@ -630,22 +690,19 @@ struct PI {
     using Q2 = typename std::conditional<Generic, typename B::GQ, typename B::CQ>::type;
     using L = typename std::conditional<Side == 0, Q1, D1>::type;
     using Rr = typename std::conditional<Side == 0, D2, Q2>::type;
-    static L left(R1 a) { return L{D1{a}}; }
-    static Rr right(R2 b) { return Rr{D2{b}}; }
-    using AuSum = decltype(left(R1{}) + right(R2{}));
+    static L left(R1 a) { return Mk<L, R1>::f(a); }
+    static Rr right(R2 b) { return Mk<Rr, R2>::f(b); }
     using ChSum = decltype(D1{} + D2{});
-    using CRep = typename AuSum::Rep;
+    using SF = SumFacts<L, Rr, Q1, Q2, R1, R2, ChSum>;
 
     static std::string info() {
-        std::string s;
-        s += std::string("crep_same=") + b01(std::is_same<CRep, typename ChSum::rep>::value);
-        s += std::string(" crep_is_common=") + b01(std::is_same<CRep, typename std::common_type<R1, R2>::type>::value);
-        s += " au_unit=" + ratio_to_seconds<typename AuSum::Unit>();
+        std::string s = "acc=";       // acceptance of ==, !=, <, <=, >, >=, +, - for these operand types, in this order
+        s += b01(CanOp<OpEq, L, Rr>::value); s += b01(CanOp<OpNe, L, Rr>::value); s += b01(CanOp<OpLt, L, Rr>::value);
+        s += b01(CanOp<OpLe, L, Rr>::value); s += b01(CanOp<OpGt, L, Rr>::value); s += b01(CanOp<OpGe, L, Rr>::value);
+        s += b01(CanOp<OpAdd, L, Rr>::value); s += b01(CanOp<OpSub, L, Rr>::value);
+        s += SF::str();
         s += " ch_period=" + std::to_string(ChSum::period::num) + "/" + std::to_string(ChSum::period::den);
-        s += " k1=" + std::to_string(au::get_value<std::uint64_t>(au::unit_ratio(typename Q1::Unit{}, typename AuSum::Unit{})));
-        s += " k2=" + std::to_string(au::get_value<std::uint64_t>(au::unit_ratio(typename Q2::Unit{}, typename AuSum::Unit{})));
-        using AuDiff = decltype(left(R1{}) - right(R2{}));
-        s += std::string(" diff_type_same=") + b01(std::is_same<AuDiff, AuSum>::value);
+        s += SF::template Diff<CanOp<OpSub, L, Rr>::value>::str();
         return s;
     }
     static std::string run(const char* sa, const char* sb) {
@@ -653,33 +710,23 @@ struct PI {
         std::string s;
         {   // Au
             const L x = left(a); const Rr y = right(b);
-            long u0 = g_ub;
-            const bool e = (x == y), ne = (x != y), l = (x < y), le = (x <= y), g = (x > y), ge = (x >= y);
-            const long ucmp = g_ub - u0; u0 = g_ub;
-            s += std::string("au_eq=") + b01(e) + " au_ne=" + b01(ne) + " au_lt=" + b01(l) +
-                 " au_le=" + b01(le) + " au_gt=" + b01(g) + " au_ge=" + b01(ge);
-            s += " au_ub_cmp=" + std::to_string(ucmp);
-            const auto sum = x + y;
-            const long uadd = g_ub - u0; u0 = g_ub;
-            const auto dif = x - y;
-            const long usub = g_ub - u0;
-            s += " au_add=" + Txt<CRep>::str(sum.in(AuSum::unit)) + " au_ub_add=" + std::to_string(uadd);
-            s += " au_sub=" + Txt<CRep>::str(dif.in(AuSum::unit)) + " au_ub_sub=" + std::to_string(usub);
+            long u[8];
+            s += "au_eq=" + Ev<OpEq, L, Rr>::go(x, y, u[0]) + " au_ne=" + Ev<OpNe, L, Rr>::go(x, y, u[1]);
+            s += " au_lt=" + Ev<OpLt, L, Rr>::go(x, y, u[2]); s += " au_le=" + Ev<OpLe, L, Rr>::go(x, y, u[3]);
+            s += " au_gt=" + Ev<OpGt, L, Rr>::go(x, y, u[4]); s += " au_ge=" + Ev<OpGe, L, Rr>::go(x, y, u[5]);
+            s += " au_ub_cmp=" + std::to_string(u[0] + u[1] + u[2] + u[3] + u[4] + u[5]);
+            s += " au_add=" + Ev<OpAdd, L, Rr>::go(x, y, u[6]); s += " au_ub_add=" + std::to_string(u[6]);
+            s += " au_sub=" + Ev<OpSub, L, Rr>::go(x, y, u[7]); s += " au_ub_sub=" + std::to_string(u[7]);
         }
         {   // std::chrono on the same counts
             const D1 x{a}; const D2 y{b};
-            long u0 = g_ub;
-            const bool e = (x == y), ne = (x != y), l = (x < y), le = (x <= y), g = (x > y), ge = (x >= y);
-            const long ucmp = g_ub - u0; u0 = g_ub;
-            s += std::string(" ch_eq=") + b01(e) + " ch_ne=" + b01(ne) + " ch_lt=" + b01(l) +
-                 " ch_le=" + b01(le) + " ch_gt=" + b01(g) + " ch_ge=" + b01(ge);
-            s += " ch_ub_cmp=" + std::to_string(ucmp);
-            const auto csum = x + y;
-            const long uadd = g_ub - u0; u0 = g_ub;
-            const auto cdif = x - y;
-            const long usub = g_ub - u0;
-            s += " ch_add=" + Txt<typename ChSum::rep>::str(csum.count()) + " ch_ub_add=" + std::to_string(uadd);
-            s += " ch_sub=" + Txt<typename ChSum::rep>::str(cdif.count()) + " ch_ub_sub=" + std::to_string(usub);
+            long u[8];
+            s += " ch_eq=" + Ev<OpEq, D1, D2>::go(x, y, u[0]) + " ch_ne=" + Ev<OpNe, D1, D2>::go(x, y, u[1]);
+            s += " ch_lt=" + Ev<OpLt, D1, D2>::go(x, y, u[2]); s += " ch_le=" + Ev<OpLe, D1, D2>::go(x, y, u[3]);
+            s += " ch_gt=" + Ev<OpGt, D1, D2>::go(x, y, u[4]); s += " ch_ge=" + Ev<OpGe, D1, D2>::go(x, y, u[5]);
+            s += " ch_ub_cmp=" + std::to_string(u[0] + u[1] + u[2] + u[3] + u[4] + u[5]);
+            s += " ch_add=" + Ev<OpAdd, D1, D2>::go(x, y, u[6]); s += " ch_ub_add=" + std::to_string(u[6]);
+            s += " ch_sub=" + Ev<OpSub, D1, D2>::go(x, y, u[7]); s += " ch_ub_sub=" + std::to_string(u[7]);
         }
         return s;
     }
@@ -1020,13 +1067,15 @@ def explore(tier, seed, rng, wd):
 
     lap("model_accept")
     # ---- build and run ---------------------------------------------------------------------------
+    # every run has a C++14 configuration and a C++20 one (operator rewriting / synthesised != differ) plus others
     configs = [("g++", "c++14", "g14")]
-    others = [("g++", "c++17", "g17"), ("g++", "c++20", "g20"), ("clang++-14", "c++14", "c14"),
-              ("clang++-14", "c++17", "c17"), ("clang++-14", "c++20", "c20")]
+    cxx20 = [("g++", "c++20", "g20"), ("clang++-14", "c++20", "c20")]
+    rest = [("g++", "c++17", "g17"), ("clang++-14", "c++14", "c14"), ("clang++-14", "c++17", "c17")]
+    configs.append(cxx20[seed % 2])
     if tier == "quick":
-        configs.append(others[seed % len(others)])
+        configs.append(rest[seed % 3])
     else:
-        configs += [others[(seed + i) % len(others)] for i in (0, 2, 3)]
+        configs += [cxx20[(seed + 1) % 2], rest[seed % 3], rest[(seed + 1) % 3]]
         configs.append(("g++", "c++14", "g14o1"))        # one optimised build (-O1) of a third of the pair instances
     files = write_value_harness(wd, types, compiling, 16 if tier == "quick" else 32)
     afiles = write_accept_harness(wd, types, cells_ok)
@@ -1036,7 +1085,12 @@ def explore(tier, seed, rng, wd):
     for ci, (compiler, std, tag) in enumerate(configs):
         cfg = f"{compiler} -std={std}"
         # in the quick tier the second configuration builds a third of the pair instances
-        use = compiling if (ci == 0 or (tier != "quick" and tag != "g14o1")) else compiling[ci % 3::3]
+        if ci == 0 or (tier != "quick" and tag != "g14o1"):
+            use = compiling
+        elif tier == "quick" and ci == 2:
+            use = compiling[2::6]
+        else:
+            use = compiling[1::3]
         fl = files if use is compiling else write_value_harness(os.path.join(wd), types, use, 16)
         # -O0 (the sanitizer-instrumented build is 3x faster than -O1); thorough adds one -O1 build of a third of the pairs
         opt = "-O1" if tag == "g14o1" else "-O0"
@@ -1233,6 +1287,31 @@ def check_rt(t, vtxt, r, rans, rtv, cfg, violations, stats, samples):
         samples.append({"request": f"c17rt {t['rep']} {t['n']} {t['d']} {vs}", "model": m, "harness": r})
 
 
+def side_code_of(pr):
+    return {(0, True): "qd", (1, True): "dq", (0, False): "cd", (1, False): "dc"}[(pr["side"], pr["generic"])]
+
+
+OP_SYM = {"eq": "==", "ne": "!=", "lt": "<", "le": "<=", "gt": ">", "ge": ">=", "add": "+", "sub": "-"}
+
+
+def operand_text(t, as_quantity, generic):
+    """C++ spelling of one operand, for messages and records."""
+    dur = f"std::chrono::duration<{CTYPE[t['rep']]}, std::ratio<{t['n']}, {t['d']}>>"
+    if not as_quantity:
+        return dur + "{x}"
+    if generic:
+        n, d = norm((t["n"], t["d"]))
+        return f"au::make_quantity<decltype(au::Seconds{{}} * (au::mag<{n}>() / au::mag<{d}>()))>({CTYPE[t['rep']]}{{x}})"
+    return f"au::as_quantity({dur}{{x}})"
+
+
+def expression_text(pr, op):
+    a, b = pr["a"], pr["b"]
+    lhs = operand_text(a, pr["side"] == 0, pr["generic"])
+    rhs = operand_text(b, pr["side"] == 1, pr["generic"])
+    return f"{lhs} {OP_SYM[op]} {rhs}"
+
+
 def check_pair_info(pr, r, cfg, violations, stats):
     a, b = pr["a"], pr["b"]
     m = pr["model"]
@@ -1240,6 +1319,19 @@ def check_pair_info(pr, r, cfg, violations, stats):
     k1, k2, g = scale_factors((a["n"], a["d"]), (b["n"], b["d"]))
     gtxt = f"{g.numerator}/{g.denominator}"
     bad = []
+    # acceptance of the eight operators for these operand types (the model calls every one of them well-formed:
+    # only pairs with mixedCompiles = ok are instantiated)
+    acc = r.get("acc", "")
+    pr.setdefault("rejected_ops", {})[cfg] = [op for op, bit in zip(OPS, acc) if bit != "1"]
+    stats["operator_acceptance_checks"] = stats.get("operator_acceptance_checks", 0) + len(acc)
+    for op in pr["rejected_ops"][cfg]:
+        expr = expression_text(pr, op)
+        violations.append({"what": f"`{expr}` is rejected by {cfg} although the model (and std::chrono, and the documented policy) "
+                                   f"call the expression well-formed",
+                           "class": f"oracle-opaccept-{op}-{'qd' if pr['side'] == 0 else 'dq'}",
+                           "rec": dict(base, kind="opaccept", op=op, expression=expr, shape=side_code_of(pr), acc=acc)})
+    if r["au_unit"] == "-":
+        return
     if r["crep_same"] != "1" or r["crep_is_common"] != "1":
         bad.append("result rep of the mixed sum differs from chrono's common rep")
     if r["au_unit"] != r["ch_period"]:
@@ -1248,7 +1340,7 @@ def check_pair_info(pr, r, cfg, violations, stats):
         bad.append(f"chrono's common period {r['ch_period']} is not the rational gcd {gtxt} (oracle inconsistency)")
     if (int(r["k1"]), int(r["k2"])) != (k1, k2):
         bad.append(f"Au scales the operands by {r['k1']}, {r['k2']}; chrono by {k1}, {k2}")
-    if r["diff_type_same"] != "1":
+    if r["diff_type_same"] == "0":
         bad.append("difference and sum have different types")
     for x in bad:
         violations.append({"what": x, "class": "oracle-pair-" + x.split()[0], "rec": dict(base, observable="pair", impl=r)})
@@ -1293,6 +1385,8 @@ def check_op(pr, x1, x2, r, mline, cfg, violations, stats, samples, distinct):
     for op in OPS:
         grp = op if op in ("add", "sub") else "cmp"
         is_cmp = grp == "cmp"
+        if r[f"au_{op}"] == "unavailable":
+            continue                    # reported once per pair instance by check_pair_info (kind "opaccept")
         au = (r[f"au_{op}"] == "1") if is_cmp else parse_cxx(cr, r[f"au_{op}"])
         ch = (r[f"ch_{op}"] == "1") if is_cmp else parse_cxx(cr, r[f"ch_{op}"])
         w = want[op] if clean else None
@@ -1456,7 +1550,9 @@ def replay(path):
         rc, out, _ = run([exe])
         print("impl  :", out.strip())
         check_accept(t, s, kv(out.strip()), m, " ".join(cfg), viol, stats, samples)
-    elif kind == "pair":
+    elif kind in ("pair", "opaccept"):
+        if kind == "opaccept":
+            print("probe : is this expression accepted?  ", r.get("expression"))
         a, b = mk(r["a"], 0), mk(r["b"], 1)
         pr = {"id": 0, "a": a, "b": b, "side": r.get("side", 0), "generic": r.get("generic", False), "vals": []}
         sc = {(0, True): "qd", (1, True): "dq", (0, False): "cd", (1, False): "dc"}[(pr["side"], pr["generic"])]
